@@ -14,7 +14,9 @@ var versionPattern = regexp.MustCompile(`^v?(\d+(?:\.\d+)*(?:\.[a-zA-Z]+\d*)*(?:
 // Version represents a Ruby Gem package version
 type Version struct {
 	segments []segment
-	original string
+	// canonical holds the segments in Gem::Version's canonical form; Compare uses them
+	canonical []segment
+	original  string
 }
 
 // segment represents a version segment (numeric or string)
@@ -49,8 +51,9 @@ func (e *Ecosystem) NewVersion(version string) (*Version, error) {
 	}
 
 	return &Version{
-		segments: segments,
-		original: original,
+		segments:  segments,
+		canonical: canonicalSegments(version),
+		original:  original,
 	}, nil
 }
 
@@ -219,30 +222,47 @@ func (v *Version) String() string {
 
 // Compare compares this version with another Ruby Gem version
 func (v *Version) Compare(other *Version) int {
-	// First compare the numeric parts
-	vNumeric, vPrerelease := v.splitNumericAndPrerelease()
-	oNumeric, oPrerelease := other.splitNumericAndPrerelease()
+	// Gem::Version#<=>: compare the canonical segments position by position; a missing
+	// segment counts as 0, and a string segment sorts before a number segment, so that
+	// any version containing a letter is a prerelease of the segments before it.
+	return compareSegmentArrays(v.canonical, other.canonical)
+}
 
-	// Compare numeric parts first
-	numericCmp := compareSegmentArrays(vNumeric, oNumeric)
-	if numericCmp != 0 {
-		return numericCmp
+// segmentPattern splits a version into Gem::Version segments (runs of digits or letters)
+var segmentPattern = regexp.MustCompile(`[0-9]+|[a-zA-Z]+`)
+
+// canonicalSegments returns Gem::Version's canonical segments of a version string:
+// '-' means ".pre.", segments are the runs of digits and of letters, and trailing zero
+// segments are dropped both before the first string segment and at the end.
+// Build metadata (after '+') is not part of RubyGems versions and is ignored.
+func canonicalSegments(version string) []segment {
+	if plusIndex := strings.Index(version, "+"); plusIndex != -1 {
+		version = version[:plusIndex]
+	}
+	version = strings.ReplaceAll(version, "-", ".pre.")
+
+	var segments []segment
+	for _, part := range segmentPattern.FindAllString(version, -1) {
+		segments = append(segments, createSegment(part))
 	}
 
-	// If numeric parts are equal, compare prerelease parts
-	// No prerelease > prerelease
-	if len(vPrerelease) == 0 && len(oPrerelease) == 0 {
-		return 0
-	}
-	if len(vPrerelease) == 0 {
-		return 1 // release > prerelease
-	}
-	if len(oPrerelease) == 0 {
-		return -1 // prerelease < release
+	firstString := len(segments)
+	for i, seg := range segments {
+		if !seg.isNumeric {
+			firstString = i
+			break
+		}
 	}
 
-	// Both have prerelease, compare them
-	return compareSegmentArrays(vPrerelease, oPrerelease)
+	trim := func(segs []segment) []segment {
+		for len(segs) > 0 && segs[len(segs)-1].isNumeric && segs[len(segs)-1].numValue == 0 {
+			segs = segs[:len(segs)-1]
+		}
+		return segs
+	}
+	numeric := trim(segments[:firstString:firstString])
+	prerelease := trim(segments[firstString:])
+	return append(numeric, prerelease...)
 }
 
 // splitNumericAndPrerelease splits version into numeric and prerelease parts
@@ -297,10 +317,10 @@ func compareSegments(a, b segment) int {
 
 	// One numeric, one string - in prerelease context, strings have precedence
 	if a.isNumeric && !b.isNumeric {
-		return -1
+		return 1 // a number segment sorts after a string segment
 	}
 	if !a.isNumeric && b.isNumeric {
-		return 1
+		return -1
 	}
 
 	// Both strings - lexical comparison
